@@ -39,7 +39,10 @@ CACHE = os.environ.get('C11_CACHE', '/var/tmp/fpyverif_c11_cache')
 # 'does-not-compile' (C11-F1: abs() under an unsigned context) is repaired in /repo: unlisted, a recurrence is a violation.
 # 'fenv-optimised' (C11-F2: the -O0 build of a kernel that calls fesetround agrees with the interpreter and the -O2 build of the
 # same text does not) is a recorded finding; a kernel whose -O0 build disagrees is never classified this way.
-FINDING_OF_KIND: dict = {'zero-sign': 'C11-F3', 'sign-only': 'C11-F3', 'neg-zero-integer-storage': 'F29', 'fenv-optimised': 'C11-F2'}
+FINDING_OF_KIND: dict = {'zero-sign': 'C11-F3', 'sign-only': 'C11-F3', 'neg-zero-integer-storage': 'F29', 'fenv-optimised': 'C11-F2',
+                         'list-arg-elt-mismatch': 'C11-F4', 'undeclared-rebound-name': 'C11-F5', 'signed-overflow-ub': 'C11-F6', 'minmax-literal-zero': 'C11-F7', 'float-op-double-literal': 'C11-F8'}
+MINMAX_LIT_ZERO = re.compile(r'\b(?:min|max)\((?:[^()]|\([^()]*\))*?(?<![\w.])-?0(?:\.0)?(?![\w.])')
+F32_DOUBLE_TOKEN = re.compile(r'(?<!static_cast<float>\()(?:\((?:[A-Za-z_]\w*|\([^()]*\)) [-+*/] \d+\.\d+(?:e[-+]?\d+)?\)|\(\d+\.\d+(?:e[-+]?\d+)? [-+*/] (?:[A-Za-z_]\w*|\([^()]*\))\))')
 PER_SHAPE = int(os.environ.get('C11_PER_SHAPE', '2'))   # replay records kept per (kind, template); all are counted
 
 OPTION_COMBOS = [(o, u, a) for o in (True, False) for u in (UnboxMode.NEVER, UnboxMode.ALLOW, UnboxMode.STRICT) for a in (True, False)]
@@ -467,6 +470,285 @@ def t_zsum(x: fp.Real, y: fp.Real):
         h = y - y
     return (a, b, c, d, e, f, g, h)
 ''', pinned=[(1.0, -1.0), (0.0, -0.0), (2.5, 3.0)])   # C11-F3: x - x, (+0) + (-0), fma with an exact zero result, under RTN
+T('modes-repeat', 't_mrep', ['f64', 'f64'], '''
+@fp.fpy
+def t_mrep(x: fp.Real, y: fp.Real):
+    with RTZ64:
+        a = x / y
+    with RTZ64:
+        b = x * y + x
+    with RTP64:
+        c = x / y
+        with RTP64:
+            d = x * y + x
+        e = x - y * x
+    with fp.FP64:
+        f = x / y
+    with RTP64:
+        g = x / y + x
+    return (a, b, c, d, e, f, g)
+''', pinned=[(1.0, 3.0), (0.1, 0.7), (1e300, 3.0)])
+T('round32-modes', 't_r32m', ['f64', 'f64'], '''
+@fp.fpy
+def t_r32m(x: fp.Real, y: fp.Real):
+    with RTZ32:
+        a = fp.round(x)
+        a2 = fp.round(x) * fp.round(y)
+    with RTP32:
+        b = fp.round(x)
+        b2 = fp.round(y) + a
+    with RTN32:
+        c = fp.round(x)
+        c2 = fp.sqrt(abs(fp.round(y)))
+    with fp.FP32:
+        d = fp.round(x)
+    with fp.FP64:
+        e = a + b + c + d
+    return (a, a2, b, b2, c, c2, d, e)
+''', pinned=[(0.1, 0.3), (-0.1, 1e-50), (1e39, -1e39), (16777217.0, 3.0)])
+T('call-two-specs', 't_two', ['f32', 'f64', ('L', 'f64', None)], '''
+@fp.fpy
+def h_sq(v: fp.Real, w: fp.Real) -> fp.Real:
+    with fp.FP64:
+        return v * w + v
+
+@fp.fpy
+def h_len(zs: list[fp.Real], v: fp.Real) -> fp.Real:
+    with fp.FP64:
+        acc = v
+        for z in zs:
+            acc = acc * 0.5 + z
+        return acc + fp.round(len(zs))
+
+@fp.fpy
+def t_two(a: fp.Real, b: fp.Real, xs: list[fp.Real]):
+    with fp.FP64:
+        p = h_sq(a, a)
+        q = h_sq(b, b)
+        r = h_sq(a, b)
+        u = h_len([b, b, b], b)
+        v = h_len([b, p], q)
+        w = h_len(xs, b)
+    with fp.FP32:
+        s = h_sq(a, a)
+    return (p, q, r, s, u, v, w)
+''', pinned=[(0.1, 0.1, [1.0, 2.0]), (1.5, 1e300, [])])
+T('call-returns-alias', 't_cra', ['f64', 'f64'], '''
+@fp.fpy
+def h_same(zs: list[fp.Real], v: fp.Real) -> list[fp.Real]:
+    with fp.FP64:
+        zs[0] = zs[0] + v
+        return zs
+
+@fp.fpy
+def h_pair(v: fp.Real, w: fp.Real) -> tuple[list[fp.Real], fp.Real]:
+    with fp.FP64:
+        ys = [v, w, v * w]
+        return (ys, v + w)
+
+@fp.fpy
+def t_cra(x: fp.Real, y: fp.Real):
+    with fp.FP64:
+        xs = [x, y]
+        ys = h_same(xs, y)
+        ys[1] = 7.0
+        zs, t = h_pair(x, y)
+        zs[0] = t
+        ws = h_same(zs, t)
+    return (xs, ys, zs, ws, t)
+''', pinned=[(1.0, 2.0)])
+T('static-array-callee-write', 't_saw', ['f64', 'f64'], '''
+@fp.fpy
+def h_w3(zs: list[fp.Real], v: fp.Real) -> fp.Real:
+    with fp.FP64:
+        zs[2] = zs[0] * v
+        zs[0] = zs[1] - v
+        return zs[2] + zs[0]
+
+@fp.fpy
+def t_saw(x: fp.Real, y: fp.Real):
+    with fp.FP64:
+        xs = [x, y, x + y]
+        a = h_w3(xs, y)
+        ys = [y, y, y]
+        b = h_w3(ys, a)
+        c = h_w3(xs, b)
+        zs = xs if x < y else ys
+        zs[1] = c
+    return (a, b, c, xs, ys, zs)
+''', pinned=[(1.0, 2.0), (2.0, 1.0)])
+T('loop-modes-list', 't_lml', [('L', 'f64', None), 'f64'], '''
+@fp.fpy
+def t_lml(xs: list[fp.Real], k: fp.Real):
+    with fp.FP64:
+        ys = [x for x in xs]
+        for i in range(len(xs)):
+            with RTN64:
+                xs[i] = xs[i] / k
+            with RTP64:
+                ys[i] = ys[i] / k
+        acc = 0.0
+        for i in range(len(xs)):
+            acc = acc + (ys[i] - xs[i])
+    return (xs, ys, acc)
+''', pinned=[([1.0, 2.0, 0.1], 3.0)])
+T('round-int-ctx', 't_rictx', ['f64', 's32'], '''
+@fp.fpy
+def t_rictx(x: fp.Real, k: fp.Real):
+    with fp.SINT64:
+        a = k * k
+        b = a - k
+    with fp.FP32:
+        c = fp.round(a)
+        d = fp.round(k) * 0.5
+    with fp.FP64:
+        e = c + x
+        f = fp.round(b) * 0.25
+    return (a, b, c, d, e, f)
+''', pinned=[(0.1, 2147483647), (1.0, -2147483648), (1.0, 16777217)])
+T('share-two-owners', 't_s2o', ['f64', 'f64'], '''
+@fp.fpy
+def t_s2o(x: fp.Real, y: fp.Real):
+    with fp.FP64:
+        row = [x, y]
+        xss = [row, [y, x]]
+        row[0] = x + y
+        a = xss[0][0]
+        p = [y, x]
+        t = (p, x)
+        p[1] = a
+        q, r = t
+        b = q[1] + r
+        us = [x, x]
+        vs = us
+        us = [y, y]
+        vs[0] = 5.0
+        c = us[0] + vs[0]
+    return (xss, row, a, b, c, us, vs, p)
+''', pinned=[(1.0, 2.0)])
+T('share-two-owners-b', 't_s2b', ['f64', 'f64'], '''
+@fp.fpy
+def t_s2b(x: fp.Real, y: fp.Real):
+    with fp.FP64:
+        row = [x, y]
+        xss = [row, [y, x]]
+        row[0] = x + y
+        a = xss[0][0]
+    return (a, row[0])
+''', pinned=[(1.0, 2.0)])
+T('share-tuple-field', 't_stf', ['f64', 'f64'], '''
+@fp.fpy
+def t_stf(x: fp.Real, y: fp.Real):
+    with fp.FP64:
+        p = [y, x]
+        t = (p, x)
+        p[1] = x * y
+        q, r = t
+        b = q[1] + r
+    return (b, p[1])
+''', pinned=[(3.0, 2.0)])
+T('share-rebind-alias', 't_sra', ['f64', 'f64'], '''
+@fp.fpy
+def t_sra(x: fp.Real, y: fp.Real):
+    with fp.FP64:
+        us = [x, x]
+        vs = us
+        if x < y:
+            us = [y, y]
+        vs[0] = 5.0
+        c = us[0] + vs[0]
+    return (c, us[0], vs[1])
+''', pinned=[(1.0, 2.0), (2.0, 1.0)])
+T('rebind-both-branches', 't_rbb', ['f64', 'f64'], '''
+@fp.fpy
+def t_rbb(a0: fp.Real, a1: fp.Real):
+    with fp.FP64:
+        if a1 > a0:
+            a0 = a1 * 2.0
+        else:
+            a0 = -a1
+        t = a0 + a1
+        if t > 1.0:
+            t = t * 0.5
+        elif t < -1.0:
+            t = -t
+        else:
+            t = t + 1.0
+        xs = [a0, a1]
+        if a0 < a1:
+            xs = [t, t, t]
+        else:
+            xs = [a1]
+    return (a0, t, xs)
+''', pinned=[(1.0, 2.0), (2.0, 1.0)])   # C11-F5: a name bound before and rebound in both branches
+T('int-wrap-overflow', 't_iwo', ['s64', 's64'], '''
+@fp.fpy
+def t_iwo(x: fp.Real, y: fp.Real):
+    with fp.SINT64:
+        v0 = -y
+        v1 = x - x
+        c = v1 < v0
+        d = x + 1 > x
+        m = x * y
+        e = m / 2 < y
+    return (v0, v1, c, d, m, e)
+''', pinned=[(5, -9223372036854775808), (9223372036854775807, 3), (-9223372036854775808, -9223372036854775808)])   # C11-F6: signed overflow where the context wraps
+T('int-wrap-overflow-32', 't_iwo32', ['s32', 's32'], '''
+@fp.fpy
+def t_iwo32(x: fp.Real, y: fp.Real):
+    with fp.SINT32:
+        v0 = -y
+        c = 0 < v0
+        d = x + 1 > x
+        m = x * y
+        e = abs(m) < 0
+    return (v0, c, d, m, e)
+''', pinned=[(5, -2147483648), (2147483647, 3), (65536, 65536)])
+T('int-wrap-overflow-u16', 't_iwo16', ['u16', 'u16'], '''
+@fp.fpy
+def t_iwo16(x: fp.Real, y: fp.Real):
+    with fp.UINT16:
+        m = x * y
+        c = m < x
+        d = m / y
+    return (m, c, d)
+''', pinned=[(65535, 65535), (65535, 2), (256, 256)])
+T('lossy-must-be-refused', 't_lossy', ['f64', 'f64', 's32'], '''
+@fp.fpy
+def t_lossy(x: fp.Real, y: fp.Real, k: fp.Real):
+    with fp.FP32:
+        a = x + y
+        b = x * y
+        c = k + x
+    return (a, b, c)
+''', pinned=[(1.0000000596046448, 5.9604644775390625e-08, 16777217), (0.1, 0.2, 33554435)])   # refused today (lossy implicit casts); if it is ever accepted the operands are rounded twice
+T('minmax-literal-zero', 't_mlz', ['f64', 'f64'], '''
+@fp.fpy
+def t_mlz(v: fp.Real, a0: fp.Real):
+    with fp.FP64:
+        a = max(v, 0.0)
+        b = min(v, a0)
+        c = b + a
+        d = max(v, a0 * 0.0)
+        e = max(0.0, v)
+        f = min(0.0, v)
+        g = min(v, 0.0)
+        h = max(v, -0.0)
+        i = min(0, v, 1)
+    return (a, b, c, d, e, f, g, h, i)
+''', pinned=[(-0.0, 1.0), (-0.0, -0.0), (0.0, -1.0)])   # C11-F7: a literal zero in min/max
+T('f32-literal-subexpr', 't_f32lit', ['f32', 'f32'], '''
+@fp.fpy
+def t_f32lit(a: fp.Real, b: fp.Real):
+    with fp.FP32:
+        v = (a + 1.5) - b
+        w = (a * 0.75) * b
+        u = (2.5 - a) / (b + 0.25)
+        t = fp.sqrt(abs(a + 0.5)) + b
+    with RTZ32:
+        s = (a + 1.5) - b
+    return (v, w, u, t, s)
+''', pinned=[(3.1177140868976494e-08, 1.5), (1.0000001192092896, 3.0), (16777216.0, 0.3333333432674408)])   # C11-F8: a double literal token inside a float expression
 T('cmp', 't_cmp', ['f64', 'f64'], '''
 @fp.fpy
 def t_cmp(x: fp.Real, y: fp.Real):
@@ -705,6 +987,20 @@ def t_callnest(mss: list[list[fp.Real]]):
         r = g_nm(mss)
     return (r, mss)
 ''')
+T('call-widen-elt', 't_cwe', ['f32', 'f64'], '''
+@fp.fpy
+def h_wide(zs: list[fp.Real], v: fp.Real) -> fp.Real:
+    with fp.FP64:
+        zs[0] = zs[0] + v
+        return zs[0] * 2.0
+
+@fp.fpy
+def t_cwe(a: fp.Real, b: fp.Real):
+    with fp.FP64:
+        xs = [a]
+        r = h_wide(xs, b)
+    return (r, xs)
+''', pinned=[(0.5, 0.1)])   # C11-F4: the callee stores a double into the caller's list of floats
 T('call-modes', 't_callm', ['f64', 'f64'], '''
 @fp.fpy
 def h_dn(x: fp.Real, y: fp.Real) -> fp.Real:
@@ -772,7 +1068,7 @@ def t_int(x: fp.Real, y: fp.Real):
     return (a, b, c, d, e, x < y, x == y)
 ''')
 for _c, _a in (('INTEGER', 'int'), ('SINT32', 's32'), ('UINT8', 'u8'), ('SINT8', 's8'), ('SINT64', 's64')):
-    T(f'intdiv-{_c}', 't_idiv', [_a, _a], f'''
+    T(f'intdiv-{_c}', 't_idiv', [_a, _a], pinned={'SINT32': [(-2147483648, -1)], 'SINT64': [(-9223372036854775808, -1)], 'SINT8': [(-128, -1)]}.get(_c, []), src=f'''
 @fp.fpy
 def t_idiv(x: fp.Real, y: fp.Real):
     with fp.{_c}:
@@ -863,7 +1159,7 @@ def t_mm(x: fp.Real, y: fp.Real, z: fp.Real):
         c = min(x, -x)
         d = max(y, -y)
     return (a, b, c, d)
-''')
+''', pinned=[(0.0, -0.0, 1.0), (-0.0, 0.0, -0.0), (NAN, 1.0, -0.0)])
 T('sum-list', 't_sum', [('L', 'f64', None)], '''
 @fp.fpy
 def t_sum(xs: list[fp.Real]):
@@ -937,6 +1233,7 @@ class PGen:
         self.R = R; self.uid = uid; self.n = 0
         self.lines: list[str] = []
         self.helpers: list[str] = []
+        self.gnames: list[str] = []
 
     def fresh(self, p='v'):
         self.n += 1
@@ -991,7 +1288,7 @@ class PGen:
         R = self.R; pad = '    ' * ind
         for _ in range(n):
             kinds = ['assign'] * 4 + ['reassign'] * 2 + ['list', 'iassign', 'alias', 'slice', 'tuple']
-            if depth > 0: kinds += ['if', 'if', 'with', 'with', 'while', 'for', 'forrange', 'call', 'nested']
+            if depth > 0: kinds += ['if', 'if', 'with', 'with', 'while', 'for', 'forrange', 'call', 'nested', 'ifboth', 'callg']
             k = R.choice(kinds)
             if k == 'assign':
                 v = self.fresh(); self.lines.append(f'{pad}{v} = {self.expr(env, fmt)}'); env['S'][v] = fmt
@@ -1031,6 +1328,25 @@ class PGen:
                 if R.random() < 0.6:
                     self.lines.append(f'{pad}else:')
                     e2 = self.fork(env); self.block(e2, ind + 1, fmt, rm, depth - 1, R.randint(1, 2))
+            elif k == 'ifboth':
+                # a name bound before the branch and rebound in both arms
+                cands = [v for v, f in env['S'].items() if f == fmt and v not in env['ro']]
+                if not cands: continue
+                v = R.choice(cands)
+                self.lines.append(f'{pad}if {self.cond(env, fmt)}:')
+                self.lines.append(f'{pad}    {v} = {self.expr(env, fmt, 1)}')
+                self.lines.append(f'{pad}else:')
+                self.lines.append(f'{pad}    {v} = {self.expr(env, fmt, 1)}')
+            elif k == 'callg':
+                # a scalar helper, called with whatever formats the operands have: one specialisation per format vector
+                if fmt != 'd': continue
+                if not any(h.startswith('g') for h in self.gnames):
+                    g = f'g{self.uid}'
+                    rmg = R.choice(['RNE', 'RTZ', 'RTP', 'RTN'])
+                    self.helpers.append(f'@fp.fpy\ndef {g}(v: fp.Real, w: fp.Real) -> fp.Real:\n    with {CTX_SRC[("d", rmg)]}:\n        return v {R.choice(["+", "*", "/", "-"])} w + v\n')
+                    self.gnames.append(g)
+                v = self.fresh()
+                self.lines.append(f'{pad}{v} = {self.gnames[0]}({self.operand(env, "d")}, {self.operand(env, "d")})'); env['S'][v] = 'd'
             elif k == 'with':
                 f2 = R.choice(['d', 'd', 'f']); rm2 = R.choice(['RNE', 'RNE', 'RTZ', 'RTP', 'RTN'])
                 self.lines.append(f'{pad}with {CTX_SRC[(f2, rm2)]}:')
@@ -1213,11 +1529,12 @@ def prune_cache(limit=400):
     except OSError:
         pass
 
-def run_exe(exe: str, kids: list[int], timeout: float) -> tuple[dict, list]:
-    """run all kernels of a translation unit; returns ({(kid, i): line}, [(kid, i, how)] crashes)"""
+def run_exe(exe: str, kids: list[int], timeout: float, nvec: dict | None = None) -> tuple[dict, list]:
+    """run all kernels of a translation unit; returns ({(kid, i): line}, [(kid, i, how)] crashes).
+    `nvec[kid]` = number of argument vectors of a kernel (to attribute a crash that follows a kernel's last line to the next kernel)"""
     out: dict = {}; crashes = []
     pos = 0; first = 0; guard = 0
-    while pos < len(kids) and guard < 60:
+    while pos < len(kids) and guard < 400:
         guard += 1
         try:
             p = subprocess.run([exe, str(kids[pos]), str(first)], capture_output=True, text=True, timeout=timeout)
@@ -1230,12 +1547,18 @@ def run_exe(exe: str, kids: list[int], timeout: float) -> tuple[dict, list]:
                 f = line.split(' ', 4)
                 out[(int(f[1]), int(f[2]))] = line; last = (int(f[1]), int(f[2]))
         if rc == 0: break
-        # a kernel died: the input after the last printed one
+        # a kernel died: on the input after the last printed one
         if last is None: k, i = kids[pos], first
-        else:
-            k, i = last[0], last[1] + 1
+        else: k, i = last[0], last[1] + 1
+        while nvec is not None and i >= nvec.get(k, 1 << 30):      # that kernel was finished: the next one died on its first input
+            nxt = kids.index(k) + 1
+            if nxt >= len(kids): return out, crashes                 # (died after the last kernel: at exit)
+            k, i = kids[nxt], 0
         crashes.append((k, i, how or f'exit {rc}'))
         pos = kids.index(k); first = i + 1
+        while nvec is not None and first >= nvec.get(kids[pos], 1 << 30):
+            pos += 1; first = 0
+            if pos >= len(kids): break
     return out, crashes
 
 
@@ -1270,7 +1593,9 @@ def run(rep, tier, seed):
         'hand-written templates (arithmetic/sqrt/fma/min/max/abs/neg under FP64 and FP32, the four hardware rounding modes incl. nested scopes, return from inside a scope, '
         'loops and entry contexts; comparisons; if/else + phi widening; while/for/range; lists: construction, indexing, len, indexed assignment, aliasing, slices, comprehensions, '
         'nested and shared rows; tuples; helper calls where the callee writes a list argument, an aliased pair, a nested list, or rebinds its parameter; integer contexts '
-        'INTEGER/SINTn/UINTn incl. wrap-around; exact arithmetic under REAL) + a restricted random generator of float programs + random integer programs; each accepted program '
+        'INTEGER/SINTn/UINTn incl. wrap-around and the overflow cases (MIN / -1, x + 1 > x); exact arithmetic under REAL; repeated and nested scopes of the same mode, narrowing under the four modes, one helper specialised '
+        'for several argument formats and lengths, helpers returning an alias of their argument, lists shared through a nested list / a tuple field / a rebound alias, names rebound in both branches; '
+        'pinned argument vectors reproduce every known finding deterministically) + a restricted random generator of float programs + random integer programs; each accepted program '
         'x 12 option combinations (identical emitted text is built once) x a table of argument vectors (specials, signed zeros, subnormals, double-vs-float rounding witnesses, '
         'extremes, random bit patterns, lists of length 0..4); distinct = distinct (emitted text, argument vector) pairs executed')
     rep.assumptions += [
@@ -1279,7 +1604,8 @@ def run(rep, tier, seed):
         'dispatch_contract assumes (as an explicit structure-valued hypothesis, not an axiom) that the hardware/libm +,-,*,/,sqrt,fma are the IEEE-754 correctly rounded operations '
         'in the current fesetround mode',
         'g++ -O2 -std=c++17 on x86-64 (SSE2 arithmetic, glibc libm) is the toolchain under test; a kernel whose text calls fesetround is additionally built at -O0 to '
-        'separate emitter defects from the optimiser moving floating-point operations across fesetround calls',
+        'separate emitter defects from the optimiser moving floating-point operations across fesetround calls; a kernel with 32/64-bit signed arithmetic whose -O2 result differs is rebuilt with -fwrapv '
+        'to recognise undefined signed overflow',
         'INTEGER (unbounded) values are drawn small enough that no int64 overflow occurs: the backend documents that overflow as the user\'s problem (unsafe_cast_int=True)',
     ]
 
@@ -1435,9 +1761,15 @@ def differential(rep, R, progs, n_vec, tmp, quick, fixed=None):
     rep.cov['build'] = {'translation_units': len(tus), 'wall_s': round(time.time() - t0, 1), 'cache_hits': sum(1 for b in built if b[5]),
                         'cpu_s': round(sum(b[4] for b in built), 1), 'flags': ' '.join([CXX] + CXXFLAGS)}
 
+    not_built: set = set()
     def kernel_violation(k, what, kind, extra):
         pi, cn = k['users'][0]
         p = progs[pi]
+        if kind == 'does-not-compile': not_built.add(k['kid'])
+        if kind == 'does-not-compile' and re.search(r'invalid initialization of reference of type .*std::(vector|array)<', extra.get('compiler_output', '')):
+            kind = 'list-arg-elt-mismatch'   # a list argument whose element storage differs from the callee's parameter
+        if kind == 'does-not-compile' and re.search(r"‘\w+_\d+’ was not declared in this scope", extra.get('compiler_output', '')):
+            kind = 'undeclared-rebound-name'   # a name bound before an if/else and rebound in both branches is declared inside the first
         rep.count(f'violation:{kind}:{p["tag"]}')
         if rep.hist[f'violation:{kind}:{p["tag"]}'] > PER_SHAPE: return
         rep.violation(what, {'kind': kind, 'source': p['src'], 'entry': p['entry'], 'arg_types': repr(p['args']), 'ctx': p['ctx'], 'rm': p['rm'], 'tag': p['tag'],
@@ -1497,7 +1829,7 @@ def differential(rep, R, progs, n_vec, tmp, quick, fixed=None):
     t0 = time.time()
     def do_run(item):
         tu, exe = item
-        return item, run_exe(exe, [k['kid'] for k in tu[2]], timeout=60 if quick else 300)
+        return item, run_exe(exe, [k['kid'] for k in tu[2]], timeout=60 if quick else 300, nvec={k['kid']: len(k['used']) for k in tu[2]})
     with ThreadPoolExecutor(max_workers=8) as ex:
         ran = list(ex.map(do_run, runnable))
     rep.cov['run_wall_s'] = round(time.time() - t0, 1)
@@ -1522,7 +1854,27 @@ def differential(rep, R, progs, n_vec, tmp, quick, fixed=None):
             except Exception as e:   # noqa
                 verdict.setdefault((kid, lvl), {})[vi] = ('crash', f'unparsable output {line[:200]!r}', None, None); continue
             verdict.setdefault((kid, lvl), {})[vi] = ('ran', got, mode, post)
+    # signed-overflow check: a kernel with 32/64-bit signed (or uint16, which promotes to int) arithmetic whose -O2 result differs is
+    # rebuilt with -fwrapv (signed overflow wraps instead of being undefined); agreement there pins the difference on the overflow
+    suspects = []
+    for k in ks:
+        if k['fenv'] or not re.search(r'\b(int32_t|int64_t|uint16_t)\b', k['text']): continue
+        v2 = verdict.get((k['kid'], 'O2'), {})
+        if any(v2.get(vi) is not None and (v2[vi][0] != 'ran' or v2[vi][1] != expected[k['pi']][vi][1]) for vi in k['used']): suspects.append(k)
+    if suspects:
+        tu, text, exe, err, dt, hit = do_build(('WRAPV', CXXFLAGS + ['-fwrapv'], suspects[:60]))
+        if exe is not None:
+            lines, crashes = run_exe(exe, [k['kid'] for k in tu[2]], timeout=120, nvec={k['kid']: len(k['used']) for k in tu[2]})
+            for (kid, i), line in lines.items():
+                k = by_kid[kid]; vi = k['used'][i]
+                try:
+                    got, _ = parse_tokens(line.split(' | ')[1].split())
+                    verdict.setdefault((kid, 'WRAPV'), {})[vi] = got
+                except Exception:   # noqa
+                    pass
+        rep.cov['wrapv_rebuilt_kernels'] = len(suspects)
     n_eval = 0
+    lost: list = []          # a built kernel without an output line: must not happen (every crash is attributed)
     post_state: dict = {}   # (pi, vi) -> {post tokens: [combos]}
     for k in ks:
         pi = k['pi']; p = progs[pi]
@@ -1531,15 +1883,24 @@ def differential(rep, R, progs, n_vec, tmp, quick, fixed=None):
             res2 = verdict.get((k['kid'], 'O2'), {}).get(vi)
             res0 = verdict.get((k['kid'], 'O0'), {}).get(vi) if k['fenv'] else None
             if res2 is None:
-                rep.count('no-output'); continue
+                rep.count('no-output')
+                if k['kid'] not in not_built: lost.append((k['kid'], vi))
+                continue
             n_eval += len(k['users'])
             rep.distinct.add((k['kid'], vi))
             args = vecs_of[pi][vi]
             def judge(res):
-                if res[0] == 'crash': return 'crash', res[1]
+                if res[0] == 'crash':
+                    # SIGFPE in a kernel with 32/64-bit signed arithmetic: INT_MIN / -1 (the context wraps, the machine division traps)
+                    trap = res[1] == 'exit -8' and re.search(r'\b(int32_t|int64_t)\b', k['text']) is not None
+                    return ('signed-overflow-ub' if trap or verdict.get((k['kid'], 'WRAPV'), {}).get(vi) == want else 'crash'), res[1]
                 if res[1] != want:
                     kd = classify_value_diff(want, res[1], res[3][-1])
-                    if kd in ('zero-sign', 'sign-only') and 'FE_DOWNWARD' not in k['text']: kd = 'value'
+                    if kd in ('zero-sign', 'sign-only') and 'FE_DOWNWARD' not in k['text']:
+                        # a literal zero as a direct argument of min/max (C11-F7), else unexplained
+                        kd = 'minmax-literal-zero' if MINMAX_LIT_ZERO.search(p['src']) else 'value'
+                    if verdict.get((k['kid'], 'WRAPV'), {}).get(vi) == want: kd = 'signed-overflow-ub'
+                    if kd == 'value' and F32_DOUBLE_TOKEN.search(k['text']) and re.search(r'\bfloat\b', k['text']): kd = 'float-op-double-literal'
                     return kd, show_canon(res[1])
                 if res[2] != k['rm']: return 'mode', f'fegetround() after the call is {res[2]}, was {k["rm"]} at entry'
                 return None, None
@@ -1556,6 +1917,9 @@ def differential(rep, R, progs, n_vec, tmp, quick, fixed=None):
                     'zero-sign': 'compiled result differs from the interpreter in the sign of a floating-point zero',
                     'sign-only': 'compiled result differs from the interpreter only in the sign of some values (zeros, infinities or numbers of equal magnitude)',
                     'neg-zero-integer-storage': 'the interpreter returns -0 where the compiled code holds the value in an integer type (which has no -0)',
+                    'signed-overflow-ub': 'compiled result differs from the interpreter at -O2 and agrees when the same text is built with -fwrapv: the context wraps, the emitted signed C++ arithmetic overflows (undefined behaviour the optimiser assumes away)',
+                    'minmax-literal-zero': 'min/max with a literal zero operand: the interpreter returns its first operand on a +0/-0 tie, the compiled code applies the IEEE order -0 < +0',
+                    'float-op-double-literal': 'a non-integer literal operand of + - * / under an FP32 context is spelled as a double token: the operation runs in double and, inside a larger expression, the FP32 rounding of the intermediate is skipped',
                     'mode': 'the compiled kernel returns with a different rounding mode than it was entered with'}
             if res0 is not None:
                 # a kernel that switches the rounding mode: the -O0 build shows what the emitted text means; the -O2 build
@@ -1572,6 +1936,8 @@ def differential(rep, R, progs, n_vec, tmp, quick, fixed=None):
             else:
                 rep.count('class:' + bad2)
                 kernel_violation(k, WHAT[bad2], bad2, {**base, 'compiled': got2, 'flags': ' '.join(CXXFLAGS)})
+    if lost:
+        rep.broke('harness', 'C11.run', f'{len(lost)} (kernel, input) pairs of built kernels produced no output line, e.g. {lost[:5]}')
     # the caller's own argument storage after the call must not depend on the option set
     for (pi, vi), d in post_state.items():
         if len(d) > 1:
